@@ -594,10 +594,8 @@ fn expected(form: &Form, v: &Val) -> Option<Val> {
                 }
                 Some(Val::N(n.date().and_time(trunc_time(&n.time(), tf)?)))
             } else if form.ts {
+                // a timestamp drops the fraction, leap representation included (on whatever second it sits)
                 let t = n.time();
-                if t.nanosecond() >= 1_000_000_000 && t.second() != 59 {
-                    return None;
-                }
                 Some(Val::N(n.date().and_time(NaiveTime::from_hms_opt(t.hour(), t.minute(), t.second())?)))
             } else {
                 None
@@ -623,9 +621,6 @@ fn expected(form: &Form, v: &Val) -> Option<Val> {
             } else if form.ts {
                 let u = z.naive_utc();
                 let t = u.time();
-                if t.nanosecond() >= 1_000_000_000 && t.second() != 59 {
-                    return None;
-                }
                 let u2 = u.date().and_time(NaiveTime::from_hms_opt(t.hour(), t.minute(), t.second())?);
                 Some(Val::Z(fo.from_utc_datetime(&u2)))
             } else {
@@ -714,19 +709,23 @@ fn spec_excluded(fmt: &str) -> Option<&'static str> {
 }
 
 /// Values the crate round-trips through a member of the family but `Spec.expressible` is KNOWN not to cover:
-/// * `stamp-only-leap-off-local-59`: a zone-aware value printed by a `%s`-only format whose UTC second is a
-///   leap second at :59 but whose offset has seconds, so that the local reading shows the leap second off
-///   :59 (`exprLeap` looks at the local reading; the timestamp drops the fraction anyway).
-fn spec_excluded_value(form: &Form, v: &Val) -> Option<&'static str> {
+/// none any more.  The class `stamp-only-leap-off-local-59` (a zone-aware value printed by a `%s`-only format
+/// whose UTC second is a leap second at :59 but whose offset has seconds, so that the local reading shows the
+/// leap second off :59) is covered since `Spec.expressible` asks for the leap clause only where the format
+/// prints the wall clock's second (`exprLeapFor`, second review G6): the prediction is REQUIRED for it now,
+/// and the class is still counted.
+fn spec_excluded_value(_form: &Form, _v: &Val) -> Option<&'static str> {
+    None
+}
+fn leap_off_local_59(form: &Form, v: &Val) -> bool {
     if let Val::Z(z) = v {
         if form.ts && form.date.is_none() {
-            let l = guard(|| z.naive_local()).ok()?;
-            if l.time().nanosecond() >= 1_000_000_000 && l.time().second() != 59 {
-                return Some("stamp-only-leap-off-local-59");
+            if let Ok(l) = guard(|| z.naive_local()) {
+                return l.time().nanosecond() >= 1_000_000_000 && l.time().second() != 59;
             }
         }
     }
-    None
+    false
 }
 
 /// one family member × one value: the round trip, its oracle, and the perturbations
@@ -769,6 +768,9 @@ fn run_case(c: &mut Ctx, form: &Form, v: &Val, sample: bool) {
     if exp.is_some() && excl.is_none() {
         c.op(&format!("pf.sp {} {} {} | {}", target, hex(fmt.as_bytes()), v.tokens(), got), "agree");
         c.count("spec:prediction-required");
+        if leap_off_local_59(form, v) {
+            c.count("spec:prediction-required:stamp-only-leap-off-local-59");
+        }
         c.count(&format!("spec:prediction-required:{}", target));
     } else {
         c.op(&format!("pf.spl {} {} {} | {}", target, hex(fmt.as_bytes()), v.tokens(), got), "agree");
@@ -799,6 +801,21 @@ fn run_case(c: &mut Ctx, form: &Form, v: &Val, sample: bool) {
         };
         c.op(&format!("pf.r {} {} {}", target, hex(fmt.as_bytes()), hex(t2.as_bytes())), &shown);
         c.count("rem:cases");
+        // direct oracle (second review, G7): the value is the one the round trip must return and the remainder
+        // is exactly the tail (`family_parse_and_remainder`); a format that ends in a white-space item takes the
+        // tail's leading white space with it (its reader skips any run of white space)
+        if let Some(e) = &exp {
+            let ends_in_space = matches!(StrftimeItems::new(fmt).last(), Some(Item::Space(_)) | Some(Item::OwnedSpace(_)));
+            let rest = if ends_in_space { tail.trim_start().len() } else { tail.len() };
+            let want = format!("ok {} rest={}", e.tokens(), rest);
+            c.count("rem:oracle");
+            if shown != want {
+                c.fail(
+                    "parse_and_remainder(format(v) + tail) is not (v truncated to the printed precision, tail)",
+                    &format!("{} fmt {:?} value {} text {:?} got [{}] want [{}]", target, fmt, v.tokens(), t2, shown, want),
+                );
+            }
+        }
     }
     // case perturbation: names, am/pm and the `T`/`Z` of `%+` are read in any letter case
     if !has_letter_literal(fmt) && text.chars().any(|ch| ch.is_ascii_alphabetic()) && c.rng.chance(2, 3) {
